@@ -37,3 +37,22 @@ package signature
 //@ func PublicKey.IsValid
 //@   trusted
 //@   pure
+
+// ---- multi-signed envelopes (C17): who signed ----
+
+//@ func MultiSigned.IsSignedBy
+//@   props C17
+//@   requires s != nil
+//@   modifies nothing
+//@   loop 1 invariant forall j int :: 0 <= j && j < idx() ==> s.Signatures[j].PublicKey != pk
+//@   ensures result == (exists j int :: 0 <= j && j < len(s.Signatures) && s.Signatures[j].PublicKey == pk)
+
+//@ func MultiSigned.IsOnlySignedBy
+//@   props C17
+//@   requires s != nil
+//@   modifies nothing
+//@   loop 1 invariant forall k PublicKey :: inDom(m, k) ==> (exists i int :: 0 <= i && i < len(s.Signatures) && s.Signatures[i].PublicKey == k)
+//@   loop 2 invariant forall j int :: 0 <= j && j < idx() ==> inDom(m, pks[j])
+//@   loop 2 invariant forall k PublicKey :: inDom(m, k) ==> (exists i int :: 0 <= i && i < len(s.Signatures) && s.Signatures[i].PublicKey == k)
+//@   ensures result ==> (forall j int :: 0 <= j && j < len(pks) ==> (exists i int :: 0 <= i && i < len(s.Signatures) && s.Signatures[i].PublicKey == pks[j]))
+//@   note true only if every listed key signed (the converse, "and nobody else", rests on the size comparison of a set, which is not stated here)
